@@ -99,7 +99,16 @@ func (l *lagClient) List(ctx context.Context, list client.ObjectList, opts ...cl
 }
 
 type fakeAlgo struct {
-	s *sim
+	s      *sim
+	target string // the endpoint the controller dialled for this call ("" = not recorded)
+}
+
+// wrongEndpoint: the service the controller dialled lives in another namespace than the Suggestion being reconciled
+func (s *sim) wrongEndpoint(target string) string {
+	if target == "" || s.recNS == "" || strings.Contains(target, "."+s.recNS+":") {
+		return ""
+	}
+	return "@endpoint-of-another-namespace"
 }
 
 func (f *fakeAlgo) GetSuggestions(ctx context.Context, in *api.GetSuggestionsRequest, opts ...grpc.CallOption) (*api.GetSuggestionsReply, error) {
@@ -108,7 +117,7 @@ func (f *fakeAlgo) GetSuggestions(ctx context.Context, in *api.GetSuggestionsReq
 		names = append(names, t.Name)
 	}
 	sort.Strings(names)
-	what := fmt.Sprintf("rpc.getSuggestions.%s(%d/%d/%s)", in.Experiment.Name, in.CurrentRequestNumber, in.TotalRequestNumber, strings.Join(names, "+"))
+	what := fmt.Sprintf("rpc.getSuggestions.%s%s(%d/%d/%s)", in.Experiment.Name, f.s.wrongEndpoint(f.target), in.CurrentRequestNumber, in.TotalRequestNumber, strings.Join(names, "+"))
 	if err := f.s.call(what); err != nil {
 		return nil, err
 	}
@@ -147,10 +156,13 @@ func (f *fakeAlgo) ValidateAlgorithmSettings(ctx context.Context, in *api.Valida
 	return &api.ValidateAlgorithmSettingsReply{}, nil
 }
 
-type fakeES struct{ s *sim }
+type fakeES struct {
+	s      *sim
+	target string
+}
 
 func (f *fakeES) GetEarlyStoppingRules(ctx context.Context, in *api.GetEarlyStoppingRulesRequest, opts ...grpc.CallOption) (*api.GetEarlyStoppingRulesReply, error) {
-	what := "rpc.getRules." + in.Experiment.Name
+	what := "rpc.getRules." + in.Experiment.Name + f.s.wrongEndpoint(f.target)
 	if err := f.s.call(what); err != nil {
 		return nil, err
 	}
@@ -241,6 +253,7 @@ type sim struct {
 	sr     *sugctl.ReconcileSuggestion
 	tr     *trialctl.ReconcileTrial
 	algo   *fakeAlgo
+	recNS  string // namespace of the Suggestion being reconciled
 	db     *fakeDB
 
 	snaps []client.Client // snaps[i] = store after op i-1 (snaps[0] = initial)
@@ -441,8 +454,8 @@ func newSim() *sim {
 		}
 	}()
 	suggestionclient.SetVerifRPCClients(
-		func(*grpc.ClientConn) api.SuggestionClient { return s.algo },
-		func(*grpc.ClientConn) api.EarlyStoppingClient { return &fakeES{s: s} })
+		func(c *grpc.ClientConn) api.SuggestionClient { return &fakeAlgo{s: s, target: c.Target()} },
+		func(c *grpc.ClientConn) api.EarlyStoppingClient { return &fakeES{s: s, target: c.Target()} })
 	s.lc = &lagClient{Client: c, s: s}
 	s.er = expctl.NewVerifReconciler(s.lc, scheme, rec, exputil.NewExpsCollector(nil, prometheus.NewRegistry()))
 	s.sr = sugctl.NewVerifReconciler(s.lc, scheme, rec, suggestionclient.New(), composer.NewVerifComposer(scheme, s.lc))
@@ -574,6 +587,8 @@ func (s *sim) recExp(ns, name string, views [nKinds]int, faults uint64, abort in
 }
 func (s *sim) recSug(ns, name string, views [nKinds]int, faults uint64, abort int) string {
 	s.begin(views, faults, abort)
+	s.recNS = ns
+	defer func() { s.recNS = "" }()
 	res, err := s.sr.Reconcile(context.TODO(), reconcile.Request{NamespacedName: types.NamespacedName{Namespace: ns, Name: name}})
 	return s.end(res, err)
 }
